@@ -179,15 +179,15 @@ def r15f(rep, prog):
     return n
 
 
-def r02h_bfs(rep):
-    """hop distances of the bounded BFS are set once, at discovery (R02h restricted to is_bfs_reachable)"""
+def r02h_bfs(rep, names=('is_bfs_reachable',)):
+    """hop distances of the bounded BFS are set once, at discovery (R02h restricted to is_bfs_reachable; C06 adds the closing-path Dijkstra)"""
     from . import search
     rep.rule('R02h', 'bounded BFS: a hop distance is stored exactly once, when the vertex is discovered and marked', floor=1)
     for prog in env.extract([env.witness_tu()], 'full').values():
         sub = type(rep)(rep.prop, rep.tier)
         search.check_relaxation(sub, prog)
         for i in sub.instances.values():
-            if 'is_bfs_reachable' in i.function:
+            if any(i.function.endswith('::' + nm) or i.function == 'parmcb::' + nm for nm in names):
                 rep.add(i.rule, i.site, i.function, i.what, i.status, i.detail, key=i.key)
 
 
